@@ -450,9 +450,15 @@ def finding_key(prop, h, f):
 
 def is_known(known, key):
     for k in known.get("findings", []):
-        if (k["property"] == key["property"] and k["harness"] == key["harness"]
-                and k["check"] == key["check"] and k.get("function", key["function"]) == key["function"]):
-            return k
+        if k["property"] != key["property"] or k["check"] != key["check"]:
+            continue
+        if "harness" in k and k["harness"] != key["harness"]:
+            continue
+        if "harness_prefix" in k and not key["harness"].startswith(k["harness_prefix"]):
+            continue
+        if "function" in k and k["function"] != key["function"]:
+            continue
+        return k
     return None
 
 
@@ -572,7 +578,7 @@ def check(prop, tier, only, jobs, seed):
                 log(f"  ok   {h['full']}  (only known findings failed) t={r['time']:.1f}s")
     seen = set()
     for k, h, f in known_hits:
-        ident = (k["property"], k["harness"], k["check"])
+        ident = (k["property"], k.get("harness", k.get("harness_prefix", "")), k["check"])
         if ident in seen:
             continue
         seen.add(ident)
